@@ -23,8 +23,9 @@ RULE = ("full product personality x request route path x service on a freshly co
 BOUNDS = {
     "quick": "13 personalities (3 of them with a non-applicable route table) x 18 request route paths x 5 services, each request twice; every ordered "
              "pair of personalities as two simulators built one after the other in one process x 4 route paths x {read, write}; texts over ports {1,2,14,15,16,255,65535} x links "
-             "{0,1,255,'1.2.3.4','10.0.0.10'} in 4 notations, chains of 1..2 segments",
-    "thorough": "same product (it is already complete for the alphabet) + chains of 3 segments and connection paths with a trailing CIP path",
+             "{0,1,255,'1.2.3.4','10.0.0.10'} in 4 notations, chains of 1..2 segments + chains of 3 over a 4-segment sub-alphabet; "
+             "client call sequences of length <= 2",
+    "thorough": "same product (it is already complete for the alphabet) + client call sequences of length 3 and connection paths with a trailing CIP path",
 }
 ASSUMPTIONS = ["no request of the alphabet leads with a hop of a configured [UCMM] Route table (forwarding to a remote device is out of scope): "
                "a request route path is only ever matched against the personality, with and without a (non-applicable) route table",
@@ -205,7 +206,7 @@ def texts(tier):
         yield "%s/%s/%s/%s" % (p, l, q, m), want
         yield json.dumps([{"port": p, "link": l}, {"port": q, "link": m}]), want
         yield json.dumps(["%s/%s" % (p, l), {"port": q, "link": m}]), want
-    if tier != "quick":
+    if True:
         sub = [(1, 0), (2, "1.2.3.4"), (16, 255), (65535, "10.0.0.10")]
         for a, b, c in itertools.product(sub, repeat=3):
             yield "/".join("%s/%s" % x for x in (a, b, c)), [PL(*a), PL(*b), PL(*c)]
